@@ -78,7 +78,11 @@ func (o Option) DesignateNode(key ...string) Option {
 // e.g.
 // DesignateNodeWithPath({"sub graph node key", "node key within sub graph"})
 func (o Option) DesignateNodeWithPath(path ...*NodePath) Option {
-	o.paths = append(o.paths, path...)
+	// copy before appending: o is a copy of the caller's Option but shares its paths array,
+	// so appending in place would leak into other options derived from the same base.
+	nPaths := make([]*NodePath, 0, len(o.paths)+len(path))
+	nPaths = append(nPaths, o.paths...)
+	o.paths = append(nPaths, path...)
 	return o
 }
 
